@@ -828,6 +828,32 @@ func main() {
 	drv.Flush()
 }
 
+// nilNamedCollection: the value is, or directly holds, a nil value of a named (generated) slice or
+// map type, i.e. of a schema component of type array / object-map.
+func nilNamedCollection(v reflect.Value) bool {
+	is := func(x reflect.Value) bool {
+		k := x.Kind()
+		return (k == reflect.Slice || k == reflect.Map) && x.Type().PkgPath() != "" && x.Type().Name() != "" && x.IsNil()
+	}
+	if is(v) {
+		return true
+	}
+	if v.Kind() == reflect.Struct {
+		for i := 0; i < v.NumField(); i++ {
+			f := v.Field(i)
+			if is(f) {
+				return true
+			}
+			if f.Kind() == reflect.Struct {
+				if val := f.FieldByName("Value"); val.IsValid() && is(val) {
+					return true
+				}
+			}
+		}
+	}
+	return false
+}
+
 func checkRoot(vd *refval.Validator, name string, schema M) {
 	t, ok := api.VerifTypes[name]
 	if !ok {
@@ -853,6 +879,9 @@ func checkRoot(vd *refval.Validator, name string, schema M) {
 		}
 		report := func(class, data, back, detail string, extra map[string]string) {
 			attrs := map[string]string{"class": class}
+			if nilNamedCollection(v) {
+				attrs["nil_named_collection"] = "true"
+			}
 			for k, x := range extra {
 				attrs[k] = x
 			}
@@ -944,8 +973,37 @@ func checkRoot(vd *refval.Validator, name string, schema M) {
 		judge(v, "go-first")
 	}
 	// JSON-first: every pool instance the reference accepts must decode, validate and re-encode to the same value
-	vSchema, _ := resolve(schema)["properties"].(M)["v"].(M)
-	for _, inst := range pool {
+	// a root {v: S, ...} takes the pool documents as they are; a named component type takes their "v" members
+	insts := pool
+	vSchema := resolve(schema)
+	wrapped := false
+	if props, ok := resolve(schema)["properties"].(M); ok {
+		if vs, ok := props["v"].(M); ok && (strings.HasPrefix(name, "R")) {
+			vSchema, wrapped = vs, true
+		}
+	}
+	if !wrapped {
+		insts = nil
+		if k := t.Kind(); k == reflect.Slice {
+			// only a nil-able named type can stand for null itself; a nullable primitive component
+			// is represented by the Nil... wrapper at the place that refers to it
+			insts = []string{"null"}
+		}
+		for _, doc := range pool {
+			if dv, err := refval.Decode(doc); err == nil {
+				if m, ok := dv.(M); ok {
+					if inner, ok := m["v"]; ok {
+						b, _ := json.Marshal(inner)
+						insts = append(insts, string(b))
+					}
+				}
+			}
+		}
+	}
+	for _, inst := range insts {
+		if !wrapped && inst == "null" && t.Kind() != reflect.Slice {
+			continue
+		}
 		if hasKey(vSchema, "format") {
 			break // formats constrain more than the reference validator knows (widths, syntaxes)
 		}
@@ -954,7 +1012,13 @@ func checkRoot(vd *refval.Validator, name string, schema M) {
 			continue
 		}
 		okv, ambiguous := vd.Valid(schema, iv)
-		if ambiguous || !okv || vd.MixedVariantMembers(resolve(schema)["properties"].(M)["v"].(M), iv.(M)["v"]) {
+		inner := iv
+		if wrapped {
+			if m, ok := iv.(M); ok {
+				inner = m["v"]
+			}
+		}
+		if ambiguous || !okv || vd.MixedVariantMembers(vSchema, inner) {
 			continue
 		}
 		evals++
